@@ -7,6 +7,8 @@ import (
 	"context"
 	"fmt"
 	"github.com/marekgalovic/anndb/storage"
+	"google.golang.org/grpc/codes"
+	"google.golang.org/grpc/status"
 	"strings"
 	"time"
 )
@@ -31,7 +33,7 @@ type szCase struct {
 
 func runC17(a *args) error {
 	r := newRng(a.seed)
-	st := newStats("simulated 3-node clusters, datasets of 2..7 partitions (one replica per partition, every third dataset with two replicas) populated with 15..60 items; SizeInfo asked on every node with a random set of unreachable nodes, each configuration repeated 6 times (goroutine timing varies); per-partition (len, bytes) taken from the hosting node's index; non-trivial = >= 2 remote partitions of different sizes; distinct by (dataset, asked, down)")
+	st := newStats("simulated 3-node clusters, datasets of 2..7 partitions (one replica per partition, every third dataset with two replicas) populated with 15..60 items; SizeInfo asked on every node with a random set of failing nodes (plain transport error, gRPC Canceled as for a closing connection, DeadlineExceeded), each configuration repeated 6 times (goroutine timing varies); per-partition (len, bytes) taken from the hosting node's index; non-trivial = >= 2 remote partitions of different sizes; distinct by (dataset, asked, down)")
 	nds := 4
 	if a.tier == "thorough" {
 		nds = 16
@@ -83,14 +85,23 @@ func runC17(a *args) error {
 				}
 			}
 			for rep := 0; rep < 6; rep++ {
+				// a lookup can fail in several ways; whichever error the client returns, the partition's size was not obtained
 				for _, n := range down {
-					d.c.nodes[n].setUnreachable(true)
+					switch rep % 3 {
+					case 0:
+						d.c.nodes[n].setUnreachable(true)
+					case 1: // what gRPC returns for a call on a connection being closed (a peer that has just left)
+						d.c.nodes[n].setGate(func(string) error { return status.Error(codes.Canceled, "grpc: the client connection is closing") })
+					case 2:
+						d.c.nodes[n].setGate(func(string) error { return status.Error(codes.DeadlineExceeded, "context deadline exceeded") })
+					}
 				}
 				ctx, cancel := context.WithTimeout(context.Background(), 2*time.Second)
 				l, b, serr := d.c.nodes[asked].datasets[d.id].SizeInfo(ctx)
 				cancel()
 				for _, n := range down {
 					d.c.nodes[n].setUnreachable(false)
+					d.c.nodes[n].setGate(nil)
 				}
 				c := sc
 				if serr != nil {
